@@ -38,11 +38,14 @@ def _scalar_shapes(case):
     (defined by a literal-only expression), which the optimizer folds back into a scalar."""
     from .ir import step_exprs, walk_expr
 
-    for s in case["steps"]:
+    extra = []
+    if isinstance(case.get("expr"), dict) and "expr" in case["expr"]:
+        extra = [{"verb": "expr", "exprs": [case["expr"]["expr"]]}]  # C20: an expression exported on its own
+    for s in list(case["steps"]) + extra:
         if s["verb"] in ("mutate", "summarize"):
             if any(_no_col(e) for _, e in s["items"]):
                 return True
-        for e in step_exprs(s):
+        for e in (s["exprs"] if s["verb"] == "expr" else step_exprs(s)):
             for nd in walk_expr(e):
                 if nd[0] == "case":
                     vals = [v for _, v in nd[1]] + ([nd[2]] if nd[2] is not None else [])
@@ -105,6 +108,7 @@ class PipelineRun:
         self.built = {}
         self.frames = {}
         self.case2 = case
+        self.prefix_quirk = None
 
 
 def classify_case(case, out: Outcome):
@@ -198,6 +202,10 @@ def examine_pipeline(case, out: Outcome, *, backends=("polars", "sqlite"), ref_c
                 if q:
                     out.count("engine_quirk:" + q)
                     continue
+                if kind == "polars" and exc_name(ex) == "PanicException" and _noopt_agrees(b.vars[rv], lambda d: None):
+                    # a panic inside the Polars optimizer (the same plan collects without it): engine bug, DESIGN 4.15
+                    out.count("engine_quirk:polars_optimizer_panic")
+                    continue
                 out.fail("internal-error", f"{kind}:export:{exc_name(ex)}:{innermost_repo_frame(ex)}",
                          f"{kind} export raised {exc_name(ex)}: {str(ex)[:500]}")
                 continue
@@ -213,6 +221,12 @@ def examine_pipeline(case, out: Outcome, *, backends=("polars", "sqlite"), ref_c
                     run.frames[(kind, rv)] = build.export_polars_noopt(b.vars[rv])
                     continue
                 where = first_divergence(run, kind, rv) if localize else "?"
+                if run.prefix_quirk:
+                    # an intermediate table of this lineage already trips an engine bug: what the engine makes of the
+                    # rest of the plan says nothing about the library
+                    out.count("engine_quirk:prefix:" + run.prefix_quirk)
+                    run.frames.pop((kind, rv), None)
+                    continue
                 out.fail("mismatch", f"{kind}:{mm.kind}:{where}", f"{kind} vs reference at {rv}: {mm}", var=rv)
     if differential:
         for rv in rvars:
@@ -273,6 +287,7 @@ def first_divergence(run: PipelineRun, kind, rv) -> str:
             return f"{s['verb']}<{prev}"
         except BaseException as ex:  # noqa: BLE001
             reraise_control(ex)
+            run.prefix_quirk = engine_quirk(ex, run.case2, run.ref)
             return f"{s['verb']}!{exc_name(ex)}"
         if not s.get("_auto"):
             prev = s["verb"]
